@@ -144,7 +144,18 @@ func c09QTok(qs []dnsmessage.Question) string {
 	if !ok {
 		return "?" + qs[0].Name
 	}
+	if qs[0].Qclass != dnsmessage.ClassINET {
+		return fmt.Sprintf("%d.%d.%d.%d", n, sp, qs[0].Qtype, qs[0].Qclass)
+	}
 	return fmt.Sprintf("%d.%d.%d", n, sp, qs[0].Qtype)
+}
+
+// c09QStr renders a question token (class omitted when IN).
+func c09QStr(n, sp, qt, cls int) string {
+	if cls != 1 && cls != 0 {
+		return fmt.Sprintf("%d.%d.%d.%d", n, sp, qt, cls)
+	}
+	return fmt.Sprintf("%d.%d.%d", n, sp, qt)
 }
 
 // ------------------------------------------------------------------------------------------
@@ -683,11 +694,17 @@ func (f *c09ScriptFwd) ForwardDNS(ctx context.Context, data []byte) (*dnsmessage
 	m.RecursionAvailable = true
 	if a.q != "-" {
 		var n, sp, qt int
-		fmt.Sscanf(a.q, "%d.%d.%d", &n, &sp, &qt)
+		cls := 1
+		if strings.Count(a.q, ".") == 3 {
+			fmt.Sscanf(a.q, "%d.%d.%d.%d", &n, &sp, &qt, &cls)
+		} else {
+			fmt.Sscanf(a.q, "%d.%d.%d", &n, &sp, &qt)
+		}
 		name := c09Name(n, sp, f.w.routeOfReq(&req))
-		m.Question = []dnsmessage.Question{{Name: name, Qtype: uint16(qt), Qclass: dnsmessage.ClassINET}}
+		m.Question = []dnsmessage.Question{{Name: name, Qtype: uint16(qt), Qclass: uint16(cls)}}
 		if a.ans != 0 {
 			m.Answer = []dnsmessage.RR{c09AnswerRR(dnsmessage.CanonicalName(name), uint16(qt), a.ans)}
+			m.Answer[0].Header().Class = uint16(cls)
 			if a.ttl0 {
 				m.Answer[0].Header().Ttl = 0
 			}
@@ -707,6 +724,7 @@ type c09Client struct {
 	sp    int
 	qtype int
 	route string // a r u t b
+	cls   int    // DNS class of the question (1 IN, 3 CH, 255 ANY)
 	dst   int    // realDst index (scope of as-is answers)
 	w     *c09Writer
 	done  chan error
@@ -733,7 +751,11 @@ func (c *c09Client) tok() string {
 	if c.route == "r" {
 		rt = "r"
 	}
-	return fmt.Sprintf("%d:%d:%d:%d:%d:%s", c.id, c09NameTok(c.n, c.route), c.sp, c.qtype, c.scope(), rt)
+	t := fmt.Sprintf("%d:%d:%d:%d:%d:%s", c.id, c09NameTok(c.n, c.route), c.sp, c.qtype, c.scope(), rt)
+	if c.cls != 1 {
+		t += fmt.Sprintf(":%d", c.cls)
+	}
+	return t
 }
 func (c *c09Client) scheme() string {
 	switch c.route {
@@ -946,6 +968,7 @@ func (w *c09CtlWorld) poll() {
 func (w *c09CtlWorld) start(c *c09Client) {
 	q := new(dnsmessage.Msg)
 	q.SetQuestion(c09Name(c.n, c.sp, c.route), uint16(c.qtype))
+	q.Question[0].Qclass = uint16(c.cls)
 	q.Id = uint16(c.id)
 	req := &udpRequest{realSrc: netip.MustParseAddrPort("192.0.2.10:41000"), realDst: netip.MustParseAddrPort(c09Dsts[c.dst]), routingResult: &bpfRoutingResult{}}
 	go func() {
@@ -972,7 +995,7 @@ func c09GenAtt(r *VRand, c *c09Client, stat *VStats, pool []int, optimistic bool
 		return c09Att{fail: true, timeout: true}
 	}
 	nt := c09NameTok(c.n, c.route)
-	a := c09Att{id: c.id, q: fmt.Sprintf("%d.%d.%d", nt, c.sp, c.qtype), resp: true, ans: 1 + r.Intn(900)}
+	a := c09Att{id: c.id, q: c09QStr(nt, c.sp, c.qtype, c.cls), resp: true, ans: 1 + r.Intn(900)}
 	stat.Inc("ctl.att.msg")
 	if r.Chance(0.25) { // other ID (transport-level ID need not be the client's)
 		a.id = r.Intn(65536)
@@ -980,17 +1003,20 @@ func c09GenAtt(r *VRand, c *c09Client, stat *VStats, pool []int, optimistic bool
 	}
 	switch r.Intn(12) {
 	case 0: // other name
-		a.q = fmt.Sprintf("%d.%d.%d", c09NameTok(pool[r.Intn(len(pool))], c.route), r.Intn(4), c.qtype)
+		a.q = c09QStr(c09NameTok(pool[r.Intn(len(pool))], c.route), r.Intn(4), c.qtype, c.cls)
 		stat.Inc("ctl.att.other-name-maybe")
 	case 1: // other type
-		a.q = fmt.Sprintf("%d.%d.%d", nt, c.sp, 29-c.qtype)
+		a.q = c09QStr(nt, c.sp, 29-c.qtype, c.cls)
 		stat.Inc("ctl.att.other-type")
 	case 2:
 		a.q = "-"
 		stat.Inc("ctl.att.no-question")
 	case 3, 4: // same question, other spelling
-		a.q = fmt.Sprintf("%d.%d.%d", nt, r.Intn(8), c.qtype)
+		a.q = c09QStr(nt, r.Intn(8), c.qtype, c.cls)
 		stat.Inc("ctl.att.other-case")
+	case 5: // same name and type, other class
+		a.q = c09QStr(nt, c.sp, c.qtype, []int{1, 3, 255}[(map[int]int{1: 0, 3: 1, 255: 2}[c.cls]+1+r.Intn(2))%3])
+		stat.Inc("ctl.att.other-class")
 	}
 	if r.Chance(0.12) {
 		a.tc = true
@@ -1054,7 +1080,7 @@ func c09RunCtlScenario(r *VRand, st *VStream, stat *VStats, routing *componentdn
 	}
 	var toks []string
 	for i := 0; i < nc; i++ {
-		c := &c09Client{id: ids[r.Intn(2)], n: names[r.Intn(2)], sp: r.Intn(8), qtype: []int{1, 1, 1, 28}[r.Intn(4)], route: route, dst: 0,
+		c := &c09Client{id: ids[r.Intn(2)], n: names[r.Intn(2)], sp: r.Intn(8), qtype: []int{1, 1, 1, 28}[r.Intn(4)], route: route, dst: 0, cls: []int{1, 1, 1, 1, 1, 1, 1, 3, 3, 255}[r.Intn(10)],
 			w: &c09Writer{gate: make(chan struct{})}, done: make(chan error, 1)}
 		if r.Chance(0.6) || optimistic && r.Chance(0.6) {
 			c.n = names[0] // mostly the same question
@@ -1068,7 +1094,11 @@ func c09RunCtlScenario(r *VRand, st *VStream, stat *VStats, routing *componentdn
 		}
 		if coalesce {
 			c.id, c.n, c.qtype, c.route, c.dst = (ids[0]+i*7919)%65536, names[0], 1, route, 0
+			if i > 0 && r.Chance(0.85) {
+				c.cls = w.clients[0].cls // mostly the same class too; a few of another class must NOT be coalesced
+			}
 		}
+		stat.Inc(fmt.Sprintf("ctl.client.class%d", c.cls))
 		w.clients = append(w.clients, c)
 		toks = append(toks, c.tok())
 	}
@@ -1242,7 +1272,7 @@ func c09RunCtlScenario(r *VRand, st *VStream, stat *VStats, routing *componentdn
 			a2 := c09GenAtt(r, f.leader, stat, pool, optimistic)
 			if coalesce && r.Chance(0.85) {
 				l := f.leader
-				a1 = c09Att{id: l.id, q: fmt.Sprintf("%d.%d.%d", c09NameTok(l.n, l.route), r.Intn(8), l.qtype), resp: true}
+				a1 = c09Att{id: l.id, q: c09QStr(c09NameTok(l.n, l.route), r.Intn(8), l.qtype, l.cls), resp: true}
 				switch r.Intn(4) {
 				case 0:
 					a1.rcode = 3 // NXDOMAIN
@@ -1258,7 +1288,7 @@ func c09RunCtlScenario(r *VRand, st *VStream, stat *VStats, routing *componentdn
 			if optimistic && fi == 0 && r.Chance(0.8) {
 				// a well-behaved first answer, so that there is something to go stale
 				l := f.leader
-				a1 = c09Att{id: l.id, q: fmt.Sprintf("%d.%d.%d", c09NameTok(l.n, l.route), l.sp, l.qtype), resp: true, ans: 1 + r.Intn(900)}
+				a1 = c09Att{id: l.id, q: c09QStr(c09NameTok(l.n, l.route), l.sp, l.qtype, l.cls), resp: true, ans: 1 + r.Intn(900)}
 				ageNext = true
 			}
 			w.mu.Lock()
